@@ -443,8 +443,12 @@ func (e *bndEngine) assumptionsAt(p *prover) {
 			addINV(m.out[b.Index])
 		}
 	}
-	for _, st := range m.at {
-		addINV(st)
+	for _, b := range p.fn.Blocks {
+		for _, in := range b.Instrs {
+			if st, ok := m.at[in]; ok {
+				addINV(st)
+			}
+		}
 	}
 	// state entry conditions
 	if p.fn.Name() == "lexKey" || p.fn.Name() == "lexValue" {
